@@ -47,7 +47,7 @@ def run(prop, tier, seed, known):
         for it in range(N):
             # ---------------------------------------------------------------- beat
             k = rng.randint(6, 12)
-            period = rng.choice([0.5, 0.75, 1.0])
+            period = rng.choice([0.5, 0.75, 1.0, 0.25, 0.3])
             start = rng.choice([5.0, 5.25, 6.0])
             ref = np.array([start + i * period for i in range(k)])
             kind = rng.choice(['same', 'shifted', 'double', 'half', 'jitter', 'few', 'slip'])
@@ -206,6 +206,23 @@ def run(prop, tier, seed, known):
                 if r0 is not None and r1 is not None and (abs(r0['Raw Pitch Accuracy'] - r1['Raw Pitch Accuracy']) > 1e-9 or abs(r0['Raw Chroma Accuracy'] - r1['Raw Chroma Accuracy']) > 1e-9):
                     fails.append('octave/sign: negating the estimated frequencies changes raw pitch / raw chroma accuracy when the estimate is resampled: %s vs %s'
                                  % ((r0['Raw Pitch Accuracy'], r0['Raw Chroma Accuracy']), (r1['Raw Pitch Accuracy'], r1['Raw Chroma Accuracy'])))
+            # C02: a melody against a copy of itself is perfect for every resampling hop and interpolation kind (both sides are resampled alike)
+            nfp = rng.randint(8, 14)
+            tp_ = np.arange(nfp) * 0.01
+            fp_ = np.array([0.0 if rng.random() < 0.3 else rng.choice([220.0, 330.0, 440.0, 495.0]) for _ in range(nfp)])
+            if (fp_ > 0).any() and (fp_ == 0).any():
+                for hop_, kind_ in ((None, 'linear'), (0.016, 'nearest'), (0.016, 'zero'), (0.025, 'linear'), (0.007, 'nearest')):
+                    kw_ = {} if hop_ is None else dict(hop=hop_, kind=kind_)
+                    mp = guard('melody.evaluate(x, x, %s)' % kw_, lambda: melody.evaluate(tp_, fp_, tp_.copy(), fp_.copy(), **kw_))
+                    # non-degenerate only: after resampling the reference still has voiced and unvoiced frames and its voicing is binary
+                    rv_ = melody.to_cent_voicing(tp_, fp_, tp_.copy(), fp_.copy(), **kw_)[0]
+                    if not ((rv_ == 1).any() and (rv_ == 0).any() and np.isin(rv_, (0.0, 1.0)).all()):
+                        mp = None
+                    if mp is not None:
+                        want_ = {'Voicing Recall': 1.0, 'Voicing False Alarm': 0.0, 'Raw Pitch Accuracy': 1.0, 'Raw Chroma Accuracy': 1.0, 'Overall Accuracy': 1.0}
+                        badk = [k_ for k_ in want_ if abs(mp[k_] - want_[k_]) > 1e-9]
+                        if badk:
+                            fails.append('perfect melody estimate with %s: %s = %r (frequencies %s)' % (kw_, badk[0], float(mp[badk[0]]), fp_.tolist()))
             # ---------------------------------------------------------------- multipitch: common transposition (C09), pitches on both sides of the octave seam
             nfm = rng.randint(1, 4)
             tm = np.arange(nfm) * 0.25
